@@ -430,31 +430,37 @@ fn scan_expect(b: &Bucket, exp: &[[u8; 2]]) {
     std::mem::forget(c);
 }
 
-// @ob props=C07,C01 tier=quick cap=900 mem=8 fns=Cursor::next,Cursor::seek_first,Cursor::current,InnerBucket::page_node,InnerBucket::put,InnerBucket::node,PageNode::val,PageNode::len bound="concrete scenario (one execution): leaf {10,30}; put 20 (new), put 30 (overwrite), put 05 (new, below); scan after each" unwind=6
+// @ob props=C07,C01 tier=quick cap=1200 mem=8 fns=Cursor::next,Cursor::seek_first,Cursor::current,InnerBucket::page_node,InnerBucket::put,InnerBucket::node,PageNode::val,PageNode::len bound="concrete scenario (one execution): leaf {10,30}; put 20 (new); full scan" unwind=6
 #[kani::proof]
 #[kani::unwind(6)]
-fn cursor_scan_after_puts_concrete() {
+fn cursor_scan_after_put_new_concrete() {
     tree_single_leaf(&[[10, 0], [30, 0], [0, 0]], 2);
     let b = mk_bucket(3, true);
     let r = b.put([20u8, 0], [42u8]);
     assert!(r.is_ok());
     std::mem::forget(r);
     scan_expect(&b, &[[10, 0], [20, 0], [30, 0]]);
+    assert!(b.next_int() == 1);
+    std::mem::forget(b);
+}
+
+// @ob props=C07,C01 tier=quick cap=1200 mem=8 fns=Cursor::next,Cursor::current,InnerBucket::page_node,InnerBucket::put,InnerBucket::get bound="concrete scenario (one execution): leaf {10,30}; put over 30; full scan and lookup" unwind=6
+#[kani::proof]
+#[kani::unwind(6)]
+fn cursor_scan_after_overwrite_concrete() {
+    tree_single_leaf(&[[10, 0], [30, 0], [0, 0]], 2);
+    let b = mk_bucket(3, true);
     let r = b.put([30u8, 0], [43u8]);
     assert!(r.is_ok());
     std::mem::forget(r);
-    scan_expect(&b, &[[10, 0], [20, 0], [30, 0]]);
+    scan_expect(&b, &[[10, 0], [30, 0]]);
     let g = b.get([30u8, 0]);
     match &g {
         Some(Data::KeyValue(kv)) => assert!(kv.value() == &[43u8][..], "an overwrite is visible to the transaction"),
         _ => assert!(false),
     }
     std::mem::forget(g);
-    let r = b.put([5u8, 0], [44u8]);
-    assert!(r.is_ok());
-    std::mem::forget(r);
-    scan_expect(&b, &[[5, 0], [10, 0], [20, 0], [30, 0]]);
-    assert!(b.next_int() == 2, "two new keys, one overwrite");
+    assert!(b.next_int() == 0, "an overwrite does not bump the counter");
     std::mem::forget(b);
 }
 
@@ -483,7 +489,7 @@ fn cursor_scan_after_deletes_concrete() {
 }
 
 // ---- C07: two leaves under a branch; the transaction empties the FIRST leaf, the scan must still deliver the second
-// @ob props=C07 tier=quick cap=900 mem=8 fns=Cursor::next,Cursor::on_empty_leaf,Cursor::seek_first,Cursor::current,InnerBucket::page_node,InnerBucket::delete,InnerBucket::node,PageNode::val bound="concrete scenario (one execution): branch over leaves {10,20} and {30,40}; both keys of the first leaf deleted; then a full scan and a seek" unwind=6
+// @ob props=C07 tier=thorough cap=3000 mem=10 fns=Cursor::next,Cursor::on_empty_leaf,Cursor::seek_first,Cursor::current,InnerBucket::page_node,InnerBucket::delete,InnerBucket::node,PageNode::val bound="concrete scenario (one execution): branch over leaves {10,20} and {30,40}; both keys of the first leaf deleted; then a full scan and a seek" unwind=6
 #[kani::proof]
 #[kani::unwind(6)]
 fn cursor_scan_after_emptying_first_leaf() {
@@ -509,7 +515,7 @@ fn cursor_scan_after_emptying_first_leaf() {
 }
 
 // ---- C07: two leaves; put into the second leaf, the scan crosses from an untouched page into a materialised node
-// @ob props=C07,C08 tier=quick cap=900 mem=8 fns=Cursor::next,Cursor::seek_first,Cursor::current,InnerBucket::page_node,InnerBucket::put,InnerBucket::node,Node::insert_child bound="concrete scenario (one execution): branch over leaves {10,20} and {30,40}; put 35; full scan; lookups in both leaves" unwind=6
+// @ob props=C07,C08 tier=thorough cap=3000 mem=10 fns=Cursor::next,Cursor::seek_first,Cursor::current,InnerBucket::page_node,InnerBucket::put,InnerBucket::node,Node::insert_child bound="concrete scenario (one execution): branch over leaves {10,20} and {30,40}; put 35; full scan; lookups in both leaves" unwind=6
 #[kani::proof]
 #[kani::unwind(6)]
 fn cursor_scan_mixed_page_and_node() {
